@@ -235,6 +235,12 @@ def infeasible_reason(p):
             tv = const_truth(f[1])
             if tv is not None and tv != f[2]:
                 return 'fold: [%s] is constantly %s' % (P(f[1])[:120], tv)
+    # a - a never underflows: checked_sub(x, y) failing while x - y folds to a non-negative constant
+    for f, site, _ in facts:
+        if f[0] == 'is' and f[2] in ('Err', 'None') and f[1][0] == 'rcall' and f[1][1] == 'checked_sub':
+            d = poly(f[1][2][0]) - poly(f[1][2][1])
+            if d.is_const() and d.m.get((), 0) >= 0:
+                return 'fold: checked_sub(%s) cannot fail' % P(f[1][2][0])[:60]
     # L-pos: exec < bid, size >= 1, both products integral  =>  bid*size - exec*size >= 1
     for f, site, _ in facts:
         if f[0] == 'val' and f[2] is False and f[1][0] == 'lt' and f[1][1] == ('int', 0):
@@ -297,7 +303,7 @@ class Engine:
             allp = [PathView(self, root, e) for e in self.s['roots'][root]['exits']]
             feas = []
             for p in allp:
-                r = infeasible_reason(p) if p.kind in ('ok', 'ret') else None
+                r = infeasible_reason(p) if p.kind in ('ok', 'ret', 'err') else None
                 p.infeasible = r
                 if r is not None: self.infeasible[r.split(':')[0]] += 1
             self._paths[root] = allp
